@@ -141,7 +141,7 @@ def GenerateRxnNet(initial_reactant, reaction_rules):
                 # check for duplicate and append to unprocessed_list if missing
                 for mol1 in products:
                     inthelist = 0
-                    for mol2 in processed:
+                    for mol2 in processed + unprocessed:
                         # first check the nubmer of atoms and then
                         # look for substructure match
                         if mol1.GetNumAtoms() == mol2.GetNumAtoms() and \
